@@ -25,7 +25,10 @@ import OpenFGAVerif.Proofs.DfsTermination
 import OpenFGAVerif.Proofs.CheckV1Termination
 import OpenFGAVerif.Proofs.Reducer
 import OpenFGAVerif.Proofs.Dispatch
+import OpenFGAVerif.Proofs.IterOCRelease
+import OpenFGAVerif.Model.Release
 import OpenFGAVerif.Gen.Reducer
+import OpenFGAVerif.Gen.Release
 
 namespace OpenFGAVerif.C20
 open OpenFGAVerif.BoolSys OpenFGAVerif.Dfs OpenFGAVerif.CheckV1
@@ -165,7 +168,10 @@ def srcCancelAfterLoop : Bool := decide (Gen.Reducer.consumeAfterLoop = "cancel(
 /-- `defaultUserset` / `defaultTTU` defer `cancelFunc(); pool.Wait()` -/
 def srcDeferCancel : Bool :=
   decide (Gen.Reducer.defaultUsersetDefers = ["span.End()", "cancelFunc(); _ = pool.Wait()"] ∧
-    Gen.Reducer.defaultTTUDefers = ["span.End()", "cancelFunc(); _ = pool.Wait()"])
+    Gen.Reducer.defaultTTUDefers = ["span.End()", "cancelFunc(); _ = pool.Wait()"]) &&
+  -- … and in EXECUTION order (defers run last-in-first-out) the cancel comes before the Wait, in every function of the
+  -- evaluation packages that defers a Wait (Gen.Release.deferOrders)
+  Gen.Release.deferOrders.all (fun d => d.2.2)
 
 /-- the dispatch pipeline configuration the source yields -/
 def dispatchCfg (m L : Nat) : Dispatch.Cfg :=
@@ -218,6 +224,168 @@ theorem capacity_is_load_bearing :
 theorem try_send_is_load_bearing :
     Dispatch.Reachable DispatchProofs.plainCfg DispatchProofs.leakState ∧ ¬ Dispatch.Final DispatchProofs.leakState ∧
     ∀ s', ¬ Dispatch.Step DispatchProofs.plainCfg DispatchProofs.leakState s' := DispatchProofs.plain_send_leaks
+
+/-! ## (c) release discipline: iterators, sends, defer order (facts of extract/facts_release.go) -/
+
+open OpenFGAVerif.Model.Release in
+/-- **Stop discipline**: every statement of the evaluation / list / expand code that obtains an iterator arranges for
+its Stop on every path — `defer`, an explicit Stop with no `return` before it, or a hand-over to an owner that is
+itself in the table (a `stop-misses-returns`, `defer-after-returns` or `none` entry fails this). -/
+theorem tie_stop_discipline : Gen.Release.stopSites.all (fun s => coveredKind s.2.2.2.1) = true := by decide
+
+/-- the reviewed table of iterator-obtaining sites: a NEW site (or a changed disposition) must be reviewed here -/
+def reviewedStopSites : List (String × String × String × String × String) := [
+  ("graph/check:checkPublicAssignable", "iter", "ds.ReadUsersetTuples", "owner", "filteredIter"),
+  ("graph/check:checkPublicAssignable", "filteredIter", "storage.NewConditionsFilteredTupleKeyIterator", "defer", ""),
+  ("graph/check:checkDirectUsersetTuples", "iter", "checkutil.IteratorReadUsersetTuples", "defer", ""),
+  ("graph/check:checkDirectUsersetTuples", "iter", "checkutil.IteratorReadUsersetTuples", "defer", ""),
+  ("graph/check:checkDirectUsersetTuples", "iter", "checkutil.IteratorReadUsersetTuples", "defer", ""),
+  ("graph/check:checkDirectUsersetTuples", "iter", "checkutil.IteratorReadUsersetTuples", "defer", ""),
+  ("graph/check:checkTTU", "iter", "ds.Read", "owner", "filteredIter"),
+  ("graph/check:checkTTU", "filteredIter", "storage.NewConditionsFilteredTupleKeyIterator", "defer", ""),
+  ("graph/weight_two_resolver:fastPathDirect", "i", "checkutil.IteratorReadStartingFromUser", "owner", "iter"),
+  ("graph/weight_two_resolver:fastPathDirect", "iter", "storage.WrapIterator", "passed+stop", "concurrency.TrySendThroughChannel"),
+  ("graph/recursive_resolver:recursiveFastPath", "objectToUsersetIter", "storage.WrapIterator", "defer", ""),
+  ("graph/recursive_resolver:buildRecursiveMapper", "iter", "ds.ReadUsersetTuples", "owner", "filteredIter"),
+  ("graph/recursive_resolver:buildRecursiveMapper", "iter", "ds.Read", "owner", "filteredIter"),
+  ("graph/recursive_resolver:buildRecursiveMapper", "filteredIter", "storage.NewConditionsFilteredTupleKeyIterator", "returned", ""),
+  ("check/check:resolveRecursiveUserset", "tIter", "r.datastore.ReadUsersetTuples", "defer", ""),
+  ("check/check:resolveRecursiveUserset", "iter", "r.buildIterator", "wraps-deferred", "tIter"),
+  ("check/check:resolveRecursiveTTU", "tIter", "r.datastore.Read", "defer", ""),
+  ("check/check:resolveRecursiveTTU", "iter", "r.buildIterator", "wraps-deferred", "tIter"),
+  ("check/check:specificTypeWildcard", "iter", "storage.NewStaticTupleKeyIterator", "static", ""),
+  ("check/check:specificTypeWildcard", "tIter", "r.datastore.ReadUsersetTuples", "defer", ""),
+  ("check/check:specificTypeWildcard", "iter", "storage.NewTupleKeyIteratorFromTupleIterator", "wraps-deferred", "tIter"),
+  ("check/check:specificTypeAndRelation", "tIter", "r.datastore.ReadUsersetTuples", "defer", ""),
+  ("check/check:specificTypeAndRelation", "iter", "r.buildIterator", "wraps-deferred", "tIter"),
+  ("check/check:ttu", "tIter", "r.datastore.Read", "defer", ""),
+  ("check/check:ttu", "iter", "r.buildIterator", "wraps-deferred", "tIter"),
+  ("check/check:buildIterator", "tupleKeyIter", "storage.NewTupleKeyIteratorFromTupleIterator", "owner", "tupleKeyIter"),
+  ("check/check:buildIterator", "tupleKeyIter", "iterator.Concat", "returned", ""),
+  ("check/recursive:buildTupleMapperForID", "tIter", "s.datastore.Read", "owner", "iter"),
+  ("check/recursive:buildTupleMapperForID", "ctxIter", "storage.NewStaticTupleKeyIterator", "static", ""),
+  ("check/recursive:buildTupleMapperForID", "tIter", "s.datastore.ReadUsersetTuples", "owner", "iter"),
+  ("check/recursive:buildTupleMapperForID", "ctxIter", "storage.NewStaticTupleKeyIterator", "static", ""),
+  ("check/recursive:buildTupleMapperForID", "iter", "storage.NewTupleKeyIteratorFromTupleIterator", "owner", "iter"),
+  ("check/recursive:buildTupleMapperForID", "iter", "iterator.Concat", "owner", "i"),
+  ("check/recursive:buildTupleMapperForID", "i", "iterator.NewFilteredIterator", "returned", ""),
+  ("check/bottom_up:specificType", "tIter", "s.datastore.ReadStartingWithUser", "owner", "iter"),
+  ("check/bottom_up:specificType", "iter", "s.buildIterator", "passed+stop", "concurrency.TrySendThroughChannel"),
+  ("check/bottom_up:specificTypeWildcard", "tIter", "s.datastore.ReadStartingWithUser", "owner", "iter"),
+  ("check/bottom_up:specificTypeWildcard", "iter", "s.buildIterator", "passed+stop", "concurrency.TrySendThroughChannel"),
+  ("check/bottom_up:buildIterator", "iter", "storage.NewTupleKeyIteratorFromTupleIterator", "owner", "iter"),
+  ("check/bottom_up:buildIterator", "iter", "iterator.Merge", "returned", ""),
+  ("checkutil/checkutil:IteratorReadUsersetTuples", "iter", "ds.ReadUsersetTuples", "returned", ""),
+  ("checkutil/checkutil:IteratorReadStartingFromUser", "iter", "ds.ReadStartingWithUser", "returned", ""),
+  ("commands/expand:resolveThis", "tupleIter", "q.datastore.Read", "owner", "filteredIter"),
+  ("commands/expand:resolveThis", "filteredIter", "storage.NewFilteredTupleKeyIterator", "defer", ""),
+  ("commands/expand:resolveTupleToUserset", "tupleIter", "q.datastore.Read", "owner", "filteredIter"),
+  ("commands/expand:resolveTupleToUserset", "filteredIter", "storage.NewFilteredTupleKeyIterator", "defer", ""),
+  ("listusers/list_users_rpc:expandDirect", "iter", "l.datastore.Read", "defer", ""),
+  ("listusers/list_users_rpc:expandDirect", "filteredIter", "storage.NewFilteredTupleKeyIterator", "defer", ""),
+  ("listusers/list_users_rpc:expandTTU", "iter", "l.datastore.Read", "defer", ""),
+  ("listusers/list_users_rpc:expandTTU", "filteredIter", "storage.NewFilteredTupleKeyIterator", "defer", ""),
+  ("reverseexpand/reverse_expand:readTuplesAndExecute", "iter", "c.datastore.ReadStartingWithUser", "owner", "filteredIter"),
+  ("reverseexpand/reverse_expand:readTuplesAndExecute", "filteredIter", "storage.NewFilteredTupleKeyIterator", "defer", ""),
+  ("reverseexpand/reverse_expand_weighted:executeQueryJob", "filteredIter", "c.buildFilteredIterator", "defer", ""),
+  ("reverseexpand/reverse_expand_weighted:buildFilteredIterator", "iter", "c.datastore.ReadStartingWithUser", "returned", ""),
+  ("pipeline/store:createIterator", "it", "r.store.ReadStartingWithUser", "returned", ""),
+  ("pipeline/store:applyValidator", "base", "storage.NewTupleKeyIteratorFromTupleIterator", "owner", "base"),
+  ("pipeline/store:applyValidator", "base", "iterator.Validate", "returned", ""),
+  ("pipeline/store:Read", "iterator", "r.createIterator", "passed", "r.applyValidator")
+]
+
+theorem tie_stop_sites_reviewed : Gen.Release.stopSites = reviewedStopSites := rfl
+
+/-- **Send discipline**: besides `concurrency.TrySendThroughChannel` (select on `ctx.Done()`), the evaluation / list
+code has exactly these channel send statements — each a single send into a channel of capacity 1 created in the same
+function (it can never block), plus the error result of ListObjects' `evaluate`, whose consumer ranges over the
+channel until it is closed.  A new plain send anywhere in the listed files changes this list. -/
+theorem tie_send_discipline : Gen.Release.sendSites =
+    [("commands/list_objects:evaluate", "reverseExpandDoneWithError", "plain:cap=1"),
+     ("commands/list_objects:evaluate", "resultsChan", "plain:cap=?"),
+     ("listusers/list_users_rpc:ListUsers", "doneWithFoundUsersCh", "plain:cap=1"),
+     ("listusers/list_users_rpc:ListUsers", "expandErrCh", "plain:cap=1"),
+     ("listusers/list_users_rpc:expandIntersection", "errChan", "plain:cap=1"),
+     ("listusers/list_users_rpc:expandUnion", "errChan", "plain:cap=1")] := by decide
+
+/-- … so no send statement can park its goroutine: capacity-1 single sends, or the reviewed exception -/
+theorem sends_cannot_block : Gen.Release.sendSites.all (fun s =>
+    s.2.2 = "plain:cap=1" || s.2.2 = "select-done" || s = ("commands/list_objects:evaluate", "resultsChan", "plain:cap=?")) = true := by
+  decide
+
+/-- **Defer order**: in every function that defers a `Wait()`, the deferred cancel of the function's own context runs
+BEFORE the Wait in execution order (last-in-first-out; `defer cancel()` registered before `defer pool.Wait()` would
+wait first and hang until the caller's context ends). -/
+theorem tie_defer_order : Gen.Release.deferOrders.all (fun d => d.2.2) = true ∧
+    Gen.Release.deferOrders.map (·.1) =
+      ["graph/default_resolver:defaultUserset.func1", "graph/default_resolver:defaultTTU.func1",
+       "graph/default_resolver:processDispatches.func1", "graph/recursive_resolver:recursiveMatchUserUserset",
+       "check/check:ResolveUnionEdges", "check/check:ResolveIntersection", "check/check:ResolveExclusion",
+       "check/default:processRequests"] ∧
+    (Gen.Release.deferOrders.filter (fun d => d.1 = "graph/default_resolver:defaultTTU.func1" || d.1 = "graph/default_resolver:defaultUserset.func1")).map (·.2.1) =
+      ["cancelFunc() ; _ = pool.Wait() ; span.End()", "cancelFunc() ; _ = pool.Wait() ; span.End()"] := by decide
+
+/-- `OrderedCombinedIterator.head`: both removals of a source from the pending list are preceded by `iter.Stop()` -/
+theorem tie_oc_removals : Gen.Release.ocRemovals =
+    [("c.pending[pendingIdx] = nil", true), ("c.pending[pendingIdx] = nil", true)] := by decide
+
+section release
+open OpenFGAVerif.Model.Release OpenFGAVerif.Model.Iter
+
+/-- the disposition of Expand's tupleset iterator (`resolveTupleToUserset`) and of its direct-leaf iterator, as extracted -/
+def expandTTUDiscipline : Discipline := ofKind (kindOf Gen.Release.stopSites "commands/expand:resolveTupleToUserset" "filteredIter")
+def expandThisDiscipline : Discipline := ofKind (kindOf Gen.Release.stopSites "commands/expand:resolveThis" "filteredIter")
+
+theorem tie_expand_discipline : expandTTUDiscipline = .deferStop ∧ expandThisDiscipline = .deferStop := by decide
+
+/-- a deferred Stop runs on every exit path of the read loop -/
+theorem defer_releases_on_every_exit (script : List Step) (k : Nat) : 1 ≤ stopsOn .deferStop (runLoop script k) := by
+  cases runLoop script k <;> exact Nat.le_refl 1
+
+/-- **Expand's tuple-to-userset loop releases its iterator on every exit path**: whatever the streamed read yields — any
+number of tuples, then exhaustion or a fault (datastore error, cancelled context) at any position — the iterator
+obtained by `resolveTupleToUserset` (and by `resolveThis`) has been stopped when the function has returned. -/
+theorem expand_ttu_iterator_released (script : List Step) :
+    1 ≤ stopsOn expandTTUDiscipline (runLoop script 0) ∧ 1 ≤ stopsOn expandThisDiscipline (runLoop script 0) := by
+  rw [tie_expand_discipline.1, tie_expand_discipline.2]
+  exact ⟨defer_releases_on_every_exit script 0, defer_releases_on_every_exit script 0⟩
+
+/-- every site of the table whose disposition is `defer` releases on every exit path -/
+theorem defer_sites_release (s : String × String × String × String × String) (_ : s ∈ Gen.Release.stopSites)
+    (hk : s.2.2.2.1 = "defer") (script : List Step) : 1 ≤ stopsOn (ofKind s.2.2.2.1) (runLoop script 0) := by
+  rw [hk]
+  exact defer_releases_on_every_exit script 0
+
+/-- **negative witness**: an explicit Stop after the loop misses the early error return — a fault on the second
+`Next` leaves the iterator open (`defer` is load-bearing) -/
+theorem explicit_stop_misses_error_exit : stopsOn .stopAfterLoop (runLoop [.item, .fault] 0) = 0 ∧
+    stopsOn .stopAfterLoop (runLoop [.item, .item] 0) = 1 := by decide
+
+/-- **`OrderedCombinedIterator.Stop()` releases every source** (model of C23, Proofs/IterOCRelease): after `Stop()`,
+every source iterator the combined iterator was built from — still pending, or removed from the pending list earlier
+because it ran out, also while duplicates of the last yielded key were skipped — has been stopped at least once, for
+every call sequence before (`Next` / `Head` / `Stop`, live or cancelled: whatever prefix was consumed); and the sources
+accounted for are exactly the ones it was built from. -/
+theorem oc_stop_releases_all {α : Type} (key : α → Nat) (ins : List (SIter α)) (ops : List Op) :
+    (∀ x ∈ OC.inputs (OC.stop (Proofs.IterRelease.after key ins ops)), 1 ≤ x.stops) ∧
+    (Proofs.IterRelease.ids (OC.inputs (OC.stop (Proofs.IterRelease.after key ins ops)))).Perm (Proofs.IterRelease.ids ins) :=
+  Proofs.IterRelease.oc_stop_releases_all key ins ops
+
+/-- sources removed from the pending list were stopped at removal, at every moment -/
+theorem oc_removed_were_stopped {α : Type} (key : α → Nat) (ins : List (SIter α)) (ops : List Op) :
+    ∀ x ∈ (Proofs.IterRelease.after key ins ops).dead, 1 ≤ x.stops :=
+  Proofs.IterRelease.oc_removed_were_stopped key ins ops
+
+/-- **negative witness**: `Stop()` never reaches a removed source; one removed without a Stop stays open -/
+theorem oc_unstopped_removal_leaks {α : Type} (s : OC α) (x : SIter α) (hx : x ∈ s.dead) (h0 : x.stops = 0) :
+    ¬ ∀ y ∈ OC.inputs (OC.stop s), 1 ≤ y.stops :=
+  Proofs.IterRelease.unstopped_removal_leaks s x hx h0
+
+/-- non-vacuity: three tuples then a fault, then the loop-done path -/
+example : runLoop [.item, .item, .item, .fault] 0 = .errReturn 3 ∧ runLoop [.item, .item] 0 = .loopDone := by decide
+
+end release
 
 /-! ## non-vacuity -/
 
